@@ -95,6 +95,11 @@ def t_scale(k):
   return f, c
 
 
+def feq(a, b):
+  """Bit-equality of two floats, an undefined value (NaN) being equal to itself."""
+  return a == b or (a != a and b != b)
+
+
 def compare(base, other, scale=None):
   if isinstance(base, str) or isinstance(other, str):
     return None if base == other else 'outcome %s vs %s' % (base if isinstance(base, str) else 'ok', other if isinstance(other, str) else 'ok')
@@ -103,12 +108,12 @@ def compare(base, other, scale=None):
   for i, (a, b) in enumerate(zip(base, other)):
     if a['T'] != b['T'] or a['C'] != b['C']:
       return 'design %d: T=%s C=%s vs T=%s C=%s' % (i, a['T'], a['C'], b['T'], b['C'])
-    if a['tests'] != b['tests'] or a['corr'] != b['corr'] or a['corr_raw'] != b['corr_raw']:
+    if a['tests'] != b['tests'] or not feq(a['corr'], b['corr']) or not feq(a['corr_raw'], b['corr_raw']):
       return 'design %d: tests/correlation differ (%s %r vs %s %r)' % (i, a['tests'], a['corr_raw'], b['tests'], b['corr_raw'])
     if scale is None:
-      if a['impact'] != b['impact'] or a['inv'] != b['inv']:
+      if not feq(a['impact'], b['impact']) or not feq(a['inv'], b['inv']):
         return 'design %d: required impact %r vs %r' % (i, a['impact'], b['impact'])
-    elif b['impact'] != a['impact'] * scale:
+    elif not feq(b['impact'], a['impact'] * scale):
       return 'design %d: required impact %r is not %g x %r' % (i, b['impact'], scale, a['impact'])
   return None
 
@@ -138,6 +143,10 @@ def _one(case):
         # budgets of a few cents: any absolute tolerance or rounding in the budget tests would show
         f10, c10 = t_scale(-10)
         variants.append(('scale 2^-10 with a budget range', f10, c10))
+      # far-away units (micro-units / mega-units): an absolute tolerance anywhere in the kernels would show
+      kfar = [-30, -24, -20, 20, 24, 30][case['seed'] % 6]
+      ffar, cfar = t_scale(kfar)
+      variants.append(('scale 2^%d' % kfar, ffar, cfar))
       for name, tr, scale in variants:
         other = designs_of(case, which, tr)
         out['pairs'] += 1
@@ -154,7 +163,7 @@ def run(tier):
   ck = Check('C12', tier)
   ck.prove('props/C12.v', gen_targets=searchfam.GEN_TARGETS_ALL)
   n = common.sz(tier, 100, 1500)
-  cases = []
+  cases = [dict(c) for c in searchfam.corpus_cases('C12')]      # minimised earlier alarms run first
   for i in range(n):
     c = search.gen_case(ck.seed * 100003 + 12 * 1009 + i, tier, max_geos=5)
     c['shuffle'] = False
@@ -200,11 +209,11 @@ def run(tier):
       else:
         ck.fail('presentation-dependence', f, {'case': searchfam.slim(c)})
       break
-  ck.sample({'seed': cases[0]['seed'], 'transformations': ['shuffle rows + shift dates', 'rename geos', 'scale by 2^k', 'integer IDs']})
+  ck.sample({'seed': cases[-1]['seed'], 'transformations': ['shuffle rows + shift dates', 'rename geos', 'scale by 2^k', 'integer IDs']})
   ck.cov['rule'] = ('generated search cases (<= 5 geos; in one third some (geo, date) cells are reported in two rows; plus cases with exactly tied per-geo required impacts and a binding n_geos_max); for both searches the designs on the original input are compared with '
                     'the designs on four transformed inputs: rows shuffled + all dates shifted + eligibility rows shuffled; geos '
                     'renamed injectively (eligibility alike, results mapped back); integer instead of string IDs; responses and '
-                    'budget range multiplied by 2^k, k in -12..12 (groups, tests, correlations bit-equal, required impact scaled '
+                    'budget range multiplied by 2^k, k in -12..12 and one of -30, -24, -20, 20, 24, 30 (groups, tests, correlations bit-equal, required impact scaled '
                     'exactly). non-trivial: at least one pair compared')
   ck.cov['metamorphic_pairs_compared'] = pairs
   ck.cov['skipped'] = skipped
